@@ -188,8 +188,10 @@ func genOp(t *rapid.T, c *Case, verts []gen.P, scale float64) Op {
 		}
 		return o
 	}
-	o.K = rapid.SampledFrom([]string{"pq", "pq", "ps", "xe", "xe", "xs", "ed", "ed", "ef", "el", "fd", "rg", "cells"}).Draw(t, "k")
+	o.K = rapid.SampledFrom([]string{"pq", "pq", "ps", "xe", "xe", "xs", "ed", "ed", "ef", "el", "fd", "rg", "cells", "it"}).Draw(t, "k")
 	switch o.K {
+	case "it":
+		o.M = rapid.IntRange(0, 2).Draw(t, "entry")
 	case "pq", "ps":
 		o.M = rapid.IntRange(0, 2).Draw(t, "model")
 	case "xe", "xs":
